@@ -44,6 +44,10 @@ func runPlasma(rng *rand.Rand, n int, out *Out, _ []string) {
 }
 
 func plasmaHistory(rng *rand.Rand, out *Out) {
+	// fusions may be cancelled after a few momentums (10 hours on the real network): the plasma behind an account
+	// can shrink underneath its unconfirmed blocks
+	defer func(old uint64) { constants.FuseExpiration = old }(constants.FuseExpiration)
+	constants.FuseExpiration = 3
 	nd := NewNode()
 	defer nd.Stop()
 	users := []*wallet.KeyPair{g.User1, g.User2, g.User3, g.User6, g.User7, g.User8, g.User9, g.User10}
@@ -61,11 +65,62 @@ func plasmaHistory(rng *rand.Rand, out *Out) {
 		nd.Momentum()
 		nd.Momentum()
 	}
+	type scripted struct {
+		u   *wallet.KeyPair
+		ack uint64 // height of the acknowledged momentum, 0 = frontier
+	}
+	var queue []scripted
+	scriptedDone := false
 	steps := 30 + rng.Intn(30)
-	for s := 0; s < steps; s++ {
+	for s := 0; s < steps || len(queue) > 0 || !scriptedDone; s++ {
+		if s >= steps && len(queue) == 0 && !scriptedDone {
+			// scripted epilogue: the plasma behind an account shrinks underneath its unconfirmed blocks.
+			// Cancel a fusion made for one of the users, let the cancellation be received, then publish a block
+			// that acknowledges the last momentum at which the fusion was still active, then blocks acknowledging
+			// the frontier (where nothing is fused any more).
+			scriptedDone = true
+			st := nd.Ch.GetFrontierMomentumStore().GetAccountStore(types.PlasmaContract).Storage()
+			list, _, err := definition.GetFusionInfoListByOwner(st, g.User1.Address)
+			if err != nil {
+				continue
+			}
+			for _, fi := range list {
+				kp := KeyOf(fi.Beneficiary)
+				if kp == nil || fi.Beneficiary == g.User1.Address || fi.ExpirationHeight > nd.FrontierHeight() {
+					continue
+				}
+				if len(nd.Ch.GetUncommittedAccountBlocksByAddress(fi.Beneficiary)) != 0 {
+					nd.Momentum()
+				}
+				tmpl := &nom.AccountBlock{BlockType: nom.BlockTypeUserSend, Address: g.User1.Address, ToAddress: types.PlasmaContract,
+					Data: definition.ABIPlasma.PackMethodPanic(definition.CancelFuseMethodName, fi.Id)}
+				tx, err := nd.Sv.GenerateFromTemplate(tmpl, g.User1.Signer)
+				if err != nil || nd.Insert(tx) != nil {
+					continue
+				}
+				nd.Momentum()
+				nd.Momentum()
+				h2 := nd.FrontierHeight()
+				queue = append(queue, scripted{kp, h2 - 1}, scripted{kp, 0}, scripted{kp, 0})
+				out.Count("plasma:scripted-shrinking-fusion")
+				break
+			}
+			continue
+		}
+		var sc *scripted
+		if len(queue) > 0 {
+			sc = &queue[0]
+			queue = queue[1:]
+		}
 		u := users[rng.Intn(len(users))]
+		if sc != nil {
+			u = sc.u
+		}
 		b := &nom.AccountBlock{BlockType: nom.BlockTypeUserSend, Address: u.Address}
 		kind := rng.Intn(10)
+		if sc != nil {
+			kind = 0
+		}
 		switch {
 		case kind < 6: // plain transfer with data
 			b.ToAddress = users[rng.Intn(len(users))].Address
@@ -82,6 +137,18 @@ func plasmaHistory(rng *rand.Rand, out *Out) {
 			b.Data = definition.ABIPlasma.PackMethodPanic(definition.FuseMethodName, u.Address)
 			b.TokenStandard = types.QsrTokenStandard
 			b.Amount = big.NewInt(0)
+		}
+		if sc != nil && sc.ack != 0 {
+			if m, err := nd.Ch.GetFrontierMomentumStore().GetMomentumByHeight(sc.ack); err == nil && m != nil {
+				b.MomentumAcknowledged = m.Identifier()
+			}
+		} else if sc == nil && rng.Intn(4) == 0 && nd.FrontierHeight() > 3 {
+			// acknowledge an older momentum (not older than the one acknowledged by the account's previous block)
+			h := nd.FrontierHeight() - uint64(1+rng.Intn(2))
+			if m, err := nd.Ch.GetFrontierMomentumStore().GetMomentumByHeight(h); err == nil && m != nil {
+				b.MomentumAcknowledged = m.Identifier()
+				out.Count("plasma:candidate-acknowledges-older-momentum")
+			}
 		}
 		nd.Fill(b)
 
@@ -123,10 +190,17 @@ func plasmaHistory(rng *rand.Rand, out *Out) {
 		default:
 			f = BoundaryU64(rng)
 		}
+		if sc != nil {
+			f = base
+		}
 		b.FusedPlasma = f
 		var d uint64
 		powValid := true
-		switch rng.Intn(8) {
+		dsel := rng.Intn(8)
+		if sc != nil {
+			dsel = 7
+		}
+		switch dsel {
 		case 0, 1:
 			d = uint64(1 + rng.Intn(40000))
 		case 2:
@@ -181,14 +255,33 @@ func plasmaHistory(rng *rand.Rand, out *Out) {
 			okPow := d == 0 || powValid
 			out.Oracle(okBase && okCap && okFused && okPow, "plasma-accept-sound",
 				M{"fused_amount": Big(fusedAmt), "used_by_unconfirmed": Big(used), "f": U64(f), "d": U64(d), "base": U64(base), "pow_valid": powValid})
-			if rng.Intn(3) != 0 {
+			if sc != nil || rng.Intn(3) != 0 {
 				if e := nd.Insert(tx); e != nil {
 					out.Count("plasma:insert-failed")
 				}
 			}
 		}
+		if sc != nil || s >= steps {
+			continue
+		}
 		if rng.Intn(6) == 0 {
 			nd.Momentum()
+		}
+		if rng.Intn(12) == 0 {
+			// the owner cancels one of the fusions it made for the other users (takes effect with the next momentums)
+			st := nd.Ch.GetFrontierMomentumStore().GetAccountStore(types.PlasmaContract).Storage()
+			list, _, err := definition.GetFusionInfoListByOwner(st, g.User1.Address)
+			if err == nil && len(list) > 0 {
+				fi := list[rng.Intn(len(list))]
+				if fi.Beneficiary != g.User1.Address && fi.ExpirationHeight <= nd.FrontierHeight() {
+					tmpl := &nom.AccountBlock{BlockType: nom.BlockTypeUserSend,
+						Address: g.User1.Address, ToAddress: types.PlasmaContract,
+						Data: definition.ABIPlasma.PackMethodPanic(definition.CancelFuseMethodName, fi.Id)}
+					if tx, err := nd.Sv.GenerateFromTemplate(tmpl, g.User1.Signer); err == nil && nd.Insert(tx) == nil {
+						out.Count("plasma:fusion-cancelled")
+					}
+				}
+			}
 		}
 	}
 }
